@@ -670,16 +670,37 @@ def dispatch_ufunc(ufunc, method, inputs, kwargs):
     if method == "reduce":
         return theory.reduce_(ufunc, to_arr(inputs[0]), kwargs.get("axis", 0))
     if method == "at":
-        # unbuffered in-place accumulation  target[idx] (+)= values : recorded as a ghost event, the target is havocked
-        # (families that depend on the accumulated VALUES are bounded; the event lets a caller's dispatch be verified)
+        # unbuffered in-place accumulation  target[idx] (+)= values, one index after the other (numpy's documented semantics):
+        #   acc(k, 0) = target[k];  acc(k, j+1) = U(acc(k, j), values[j]) if idx[j] == k else acc(k, j);  target'[k] = acc(k, len(idx))
+        # recorded as a ghost event as well (callers' dispatch proofs look at it)
         target, idx = inputs[0], inputs[1]
         vals = inputs[2] if len(inputs) > 2 else None
         c = cur()
-        c.ghost.setdefault("ufunc_at", []).append({"ufunc": name, "target": target, "target_snapshot": target.snapshot() if isinstance(target, SymArr) else None,
-                                                   "idx": idx, "values": vals})
+        ev = {"ufunc": name, "target": target, "target_snapshot": target.snapshot() if isinstance(target, SymArr) else None, "idx": idx, "values": vals}
+        c.ghost.setdefault("ufunc_at", []).append(ev)
         if isinstance(target, SymArr):
-            hv = z3.Function(fresh_name("at_result"), *([z3.IntSort()] * target.ndim + [target.snapshot()(*[z3.IntVal(0)] * target.ndim).sort()]))
-            assign_all(target, lambda *i: hv(*i))
+            vkind = vals.kind if isinstance(vals, SymArr) else (kind_of_term(scalar_term(vals)) if vals is not None else None)
+            compatible = vkind is not None and not (vkind == "elem" and target.kind != "elem") and not (vkind == "bv") == (target.kind != "bv")
+            if target.ndim == 1 and isinstance(idx, SymArr) and idx.ndim == 1 and idx.kind == "int" and vals is not None and compatible:
+                from .arr import check_index_bounds, wrap_index, as_operand
+                check_index_bounds(idx, target.shape_[0])
+                old = ev["target_snapshot"]
+                isnap = idx.snapshot()
+                ov = as_operand(vals)
+                vsnap = (lambda j: ov[1]) if ov[0] == "scalar" else ov[1].snapshot()
+                m = dim_term(idx.shape_[0])
+                n_t = target.shape_[0]
+                esort = old(z3.IntVal(0)).sort()
+                acc = z3.Function(fresh_name("at_acc"), z3.IntSort(), z3.IntSort(), esort)
+                kind = target.kind
+                c.assume_forall("ufunc.at.base", lambda k: acc(k, 0) == old(k))
+                c.assume_forall("ufunc.at.step", lambda k, j: z3.Implies(z3.And(0 <= j, j < m),
+                                acc(k, j + 1) == z3.If(wrap_index(isnap(j), n_t) == k, coerce_term(apply_binary(name, acc(k, j), coerce_term(vsnap(j), kind)), kind), acc(k, j))), arity=2)
+                assign_all(target, lambda k: acc(k, m))
+                ev["acc"], ev["m"] = acc, m
+            else:
+                hv = z3.Function(fresh_name("at_result"), *([z3.IntSort()] * target.ndim + [target.snapshot()(*[z3.IntVal(0)] * target.ndim).sort()]))
+                assign_all(target, lambda *i: hv(*i))
         return None
     raise Unsupported(f"ufunc method {method}")
 
